@@ -77,7 +77,9 @@ void mp_gcdext(integer_class &gcd, integer_class &s, integer_class &t,
                const integer_class &a, const integer_class &b)
 {
 
-    integer_class this_s(1);
+    // gcd(0, 0) = 0 = 0 * 0 + 0 * 0: the cofactors are (0, 0) as with mpz_gcdext,
+    // not the (1, 0) the loop below would leave untouched
+    integer_class this_s(a == 0 && b == 0 ? 0 : 1);
     integer_class this_t(0);
     integer_class next_s(0);
     integer_class next_t(1);
